@@ -125,6 +125,10 @@ struct Case {
 	/// coordinate as its predecessor (a stream may carry a coordinate more than once)
 	#[serde(default)]
 	repeat: u8,
+	/// e > 0: in the last stage the callback answers every (e+1)-th retained item with a blob of
+	/// zero bytes (a tile without content is still a tile)
+	#[serde(default)]
+	empties: u8,
 }
 
 // ---------------------------------------------------------------------------------------
@@ -144,6 +148,8 @@ struct Plan {
 	bias: Bias,
 	/// indices of the items with this coordinate, ascending
 	index_of: HashMap<(u8, u32, u32), Vec<u32>>,
+	/// items whose result in the last stage is a blob of zero bytes
+	empty_last: Vec<bool>,
 }
 
 fn coord_text(c: &TileCoord3) -> String {
@@ -268,7 +274,9 @@ fn plan_of(case: &Case) -> Result<Plan, String> {
 			(false, Bias::Mixed, d)
 		}
 	};
-	Ok(Plan { n, coords, texts, ops, prio, keep, delay_us, gated, bias, index_of })
+	let last_op = *ops.last().unwrap();
+	let empty_last: Vec<bool> = (0..n).map(|i| case.empties > 0 && last_op != Op::Plain && (i + 1) % (case.empties as usize + 1) == 0).collect();
+	Ok(Plan { n, coords, texts, ops, prio, keep, delay_us, gated, bias, index_of, empty_last })
 }
 
 // ---------------------------------------------------------------------------------------
@@ -558,7 +566,8 @@ fn apply_stage(sh: &Arc<Shared>, stream: TileStream<'static>, stage: usize) -> T
 		Op::Map => input.map_blob_parallel(move |blob| {
 			let idx = parse_idx(blob.as_slice(), n);
 			s.enter(stage, idx, &lossy(blob.as_slice()));
-			let out = appended(&blob, &m);
+			let empty = stage + 1 == s.plan.ops.len() && idx.map(|i| s.plan.empty_last[i as usize]).unwrap_or(false);
+			let out = if empty { Blob::new_empty() } else { appended(&blob, &m) };
 			s.leave(stage, idx);
 			out
 		}),
@@ -567,6 +576,7 @@ fn apply_stage(sh: &Arc<Shared>, stream: TileStream<'static>, stage: usize) -> T
 			s.enter(stage, idx, &lossy(blob.as_slice()));
 			let out = match idx {
 				Some(i) if !s.plan.keep[stage][i as usize] => None,
+				Some(i) if stage + 1 == s.plan.ops.len() && s.plan.empty_last[i as usize] => Some(Blob::new_empty()),
 				_ => Some(appended(&blob, &m)),
 			};
 			s.leave(stage, idx);
@@ -599,6 +609,7 @@ fn build_stream(sh: &Arc<Shared>) -> TileStream<'static> {
 				});
 				s.enter(0, idx, &format!("coordinate {}", coord_text(&coord)));
 				let out = match idx {
+					Some(i) if s.plan.keep[0][i as usize] && s.plan.ops.len() == 1 && s.plan.empty_last[i as usize] => Some(Blob::new_empty()),
 					Some(i) if s.plan.keep[0][i as usize] => Some(Blob::from(format!("{}{m}", s.plan.texts[i as usize]))),
 					_ => None,
 				};
@@ -853,6 +864,7 @@ fn oracle(case: &Case, obs: &mut Obs) -> Result<(), Fail> {
 		})
 		.collect();
 	let coords = plan.coords.clone();
+	let empty_last = plan.empty_last.clone();
 	// which items reach the callback of stage s
 	let reaches: Vec<Vec<bool>> = (0..ops.len()).map(|s| (0..n).map(|i| plan.keep[..s].iter().all(|k| k[i])).collect()).collect();
 	let explicit_first: Option<Vec<u32>> = match (&case.stages[0].order, &case.sched) {
@@ -873,6 +885,15 @@ fn oracle(case: &Case, obs: &mut Obs) -> Result<(), Fail> {
 	let mut seen = vec![0u32; n];
 	for (coord, blob) in r.chunks.iter().flatten() {
 		let bytes = blob.as_slice();
+		if bytes.is_empty() {
+			// a result of zero bytes carries no index: it stands for a retained item of this coordinate
+			// whose callback answered with an empty blob and that has not come out yet
+			match (0..n).find(|&i| coords[i] == *coord && kept[i] && empty_last[i] && seen[i] == 0) {
+				Some(i) => seen[i] += 1,
+				None => fail!("output-is-no-result-of-an-input", "{chain} n={n}: an output of zero bytes at {} that no (remaining) input with an empty result accounts for", coord_text(coord)),
+			}
+			continue;
+		}
 		let Some(i) = parse_idx(bytes, n) else {
 			fail!("output-is-no-result-of-an-input", "{chain} n={n}: output ({}, {}) was not computed from any input of the stream", coord_text(coord), lossy(bytes));
 		};
@@ -886,7 +907,7 @@ fn oracle(case: &Case, obs: &mut Obs) -> Result<(), Fail> {
 			coord_text(coord)
 		);
 		ensure_prop!(
-			bytes == expected[i].as_bytes(),
+			!(kept[i] && empty_last[i]) && bytes == expected[i].as_bytes(),
 			"wrong-result",
 			"{chain} n={n}: input #{i} at {own} came out as {}, expected {:?}",
 			lossy(bytes),
@@ -1062,6 +1083,7 @@ fn gate_case(n: usize, stages: Vec<Stage>, consumer: Consumer, bias: Bias) -> Ca
 		consumer,
 		sched: Schedule::Gate { batch: 1, bias },
 		repeat: 0,
+		empties: 0,
 	}
 }
 
@@ -1186,7 +1208,7 @@ fn gated_strategy(n: impl Strategy<Value = u32>) -> impl Strategy<Value = Case> 
 		};
 		// items over 1..4 consecutive zoom levels (derived from the generated numbers)
 		let zspread = ((start >> 7) % 4) as u8;
-		Case { n, zextra, zspread, start, step, stages, consumer, sched: Schedule::Gate { batch, bias }, repeat: if (step >> 9) % 4 == 0 { 1 + ((step >> 11) % 5) as u8 } else { 0 } }
+		Case { n, zextra, zspread, start, step, stages, consumer, sched: Schedule::Gate { batch, bias }, repeat: if (step >> 9) % 4 == 0 { 1 + ((step >> 11) % 5) as u8 } else { 0 }, empties: if (step >> 14) % 4 == 0 { 1 + ((step >> 16) % 4) as u8 } else { 0 } }
 	})
 }
 
@@ -1221,6 +1243,7 @@ fn delayed_strategy(n: impl Strategy<Value = u32>) -> impl Strategy<Value = Case
 		consumer,
 		sched: Schedule::Delay { seed, density, max_us },
 		repeat: if seed % 4 == 0 { 1 + ((seed >> 3) % 5) as u8 } else { 0 },
+		empties: if (seed >> 7) % 4 == 0 { 1 + ((seed >> 9) % 4) as u8 } else { 0 },
 	})
 }
 
@@ -1237,7 +1260,7 @@ fn main() {
 	let mut check = Check::from_args(
 		"C14",
 		"exploration",
-		"streams of n tiles whose blobs carry their own index and coordinate (in a quarter of the generated cases every 2nd..6th item repeats the coordinate of its predecessor), pushed through map_blob_parallel / filter_map_blob_parallel (generated keep masks) / from_coord_iter_parallel (generated Some/None masks), alone or as chains of two, and consumed by collect or for_each_buffered(0..n+2); the completion order of the per-tile tasks is dictated by the harness (callbacks wait at gates, one release per poll of the consumer; all n! orders for n <= 5 (quick) / 6 (thorough), generated priorities up to n = 10^4) or, for the large-stream phase, perturbed by generated sleeps; phase one-cpu: delay-schedule cases in a child process restricted to one CPU (num_cpus::get() = 1); a case is non-trivial when n >= 2 and the recorded order in which the callbacks finished differs from the order in which the items were submitted to the operator; distinct = distinct serialised cases",
+		"streams of n tiles whose blobs carry their own index and coordinate (in a quarter of the generated cases every 2nd..6th item repeats the coordinate of its predecessor; in another quarter the last stage answers every 2nd..5th retained item with a blob of zero bytes), pushed through map_blob_parallel / filter_map_blob_parallel (generated keep masks) / from_coord_iter_parallel (generated Some/None masks), alone or as chains of two, and consumed by collect or for_each_buffered(0..n+2); the completion order of the per-tile tasks is dictated by the harness (callbacks wait at gates, one release per poll of the consumer; all n! orders for n <= 5 (quick) / 6 (thorough), generated priorities up to n = 10^4) or, for the large-stream phase, perturbed by generated sleeps; phase one-cpu: delay-schedule cases in a child process restricted to one CPU (num_cpus::get() = 1); a case is non-trivial when n >= 2 and the recorded order in which the callbacks finished differs from the order in which the items were submitted to the operator; distinct = distinct serialised cases",
 	);
 	let cpus = num_cpus::get();
 	check.assume("the callbacks are synchronous closures that block a runtime worker while they wait; each case runs on a multi-thread tokio runtime with 2*num_cpus+2 workers so that the in-flight windows of two chained operators can wait at the same time");
